@@ -20,7 +20,7 @@ func (c06) NumCases(tier string) int {
 	if tier == "thorough" {
 		return 1_500_000
 	}
-	return 20_000
+	return 15_000
 }
 
 func (c06) Describe() CheckInfo {
@@ -35,7 +35,7 @@ func (c06) Describe() CheckInfo {
 		},
 		RealCode:       []string{"gopatch main()/runMain/mainCmd.Run, loader, patch.Parse/File.Apply, internal/*, go-flags, pkg/diff, x/tools/imports, go-intervals, go/parser, go/printer"},
 		Stubs:          []string{"package os (simulated filesystem, streams, exit)", "path/filepath filesystem half", "io/ioutil"},
-		RequiredProbes: []string{"unmatched-noncanonical", "unmatched-with-matching-neighbour", "print-only-echo", "diff-mode", "api-apply-unmatched", "verbose", "echo-adjacency-checked", "unmatched-readonly-or-odd-mode", "api-earlier-call-on-shared-patch", "fault-fired", "fault-on-stdout-in-print-mode"},
+		RequiredProbes: []string{"unmatched-noncanonical", "unmatched-with-matching-neighbour", "print-only-echo", "diff-mode", "api-apply-unmatched", "verbose", "echo-adjacency-checked", "unmatched-readonly-or-odd-mode", "api-earlier-call-on-shared-patch", "fault-fired", "fault-on-stdout-in-print-mode", "many-files-under-descriptor-limit"},
 	}
 }
 
@@ -117,6 +117,16 @@ func (c06) Gen(env *Env, seed uint64, tier string, i int) *Case {
 	}
 	if len(c.Files) == 0 {
 		c.AddFile("nm0.go", NonMatchingFile(r, r.Pick(Styles), ""), "nomatch", nil, "")
+	}
+	if r.Chance(1, 12) {
+		// many small unmatched files under a tight descriptor limit: whatever is
+		// opened per file must be closed again per file
+		nmany := r.Range(30, 70)
+		for j := 0; j < nmany; j++ {
+			c.AddFile(fmt.Sprintf("many/u%03d.go", j), []byte(fmt.Sprintf("package many\n\nvar  U%d   =  %d\n", j, j)), "nomatch", nil, "tiny")
+		}
+		c.Spec.Knobs.MaxOpenFiles = r.Range(8, 20)
+		c.Extra["fd_limit"] = "1"
 	}
 	AddDecoys(c, r)
 	c.Flags = Flags{Diff: r.Chance(1, 3), Print: r.Chance(1, 3), SkipImport: r.Chance(1, 3), SkipGen: r.Chance(1, 3), Verbose: r.Chance(1, 3)}
@@ -237,8 +247,10 @@ func c06Faults(env *Env, c *Case) []Violation {
 	fmt.Sscan(c.Extra["rng"], &seedv)
 	r := world.NewPRNG(seedv)
 	wrote := wroteHandles(pilot.Log)
+	stride := 1 + len(pilot.Log)/120 // long runs: every stride-th operation, from a random phase
+	phase := r.Intn(stride)
 	for k, o := range pilot.Log {
-		if o.Name == "exit" || o.Name == "stderr" {
+		if o.Name == "exit" || o.Name == "stderr" || (k+phase)%stride != 0 && o.Name != "stdout" {
 			continue
 		}
 		ens := c16Errnos[opClass(o, wrote)]
@@ -323,6 +335,9 @@ func (c06) Eval(env *Env, c *Case) []Violation {
 	}
 	if c.Flags.Verbose {
 		env.Probe("verbose")
+	}
+	if c.Extra["fd_limit"] == "1" {
+		env.Probe("many-files-under-descriptor-limit")
 	}
 	apiCache := map[int]Applier{}
 	stdoutPos := 0
